@@ -152,7 +152,7 @@ def run(ctx):
     # the timeout wrappers: TimeoutType constant and per-call duration (shared with C10)
     for b, mcall, tt, fld in ((rec, MANAGER_RECYCLE, 'Recycle', 'recycle'), (cre, MANAGER_CREATE, 'Create', 'create')):
         an = prog.an(b)
-        ats = [blk for blk in b.blocks if blk.term.kind == 'call' and blk.term.rcallee and strip_generics(blk.term.rcallee) == 'deadpool::managed::apply_timeout']
+        ats = [blk for blk in b.blocks if blk.term.kind == 'call' and blk.term.rcallee and strip_generics(blk.term.rcallee) == r.TIMEOUT_WRAPPER_FN]
         ok = False; detail = 'no apply_timeout call wraps %s' % mcall.split('::')[-1]
         for a in ats:
             srcs = [sources(an, x) for x in a.term.args]
@@ -183,12 +183,16 @@ def run(ctx):
         src = sources(an, fields['inner'])
         calls = {x[1] for x in src if x[0] == 'call'}
         allowed = {rec.path, cre.path, strip_generics(rec.path), strip_generics(cre.path)}
+        # with the recycler / creator inlined the origin is the ready() call itself
+        allowed |= {strip_generics(x.term.rcallee) for x in ready_calls(root, an)}
         extra = {c for c in calls if c not in allowed and 'VecDeque::pop' not in c}
         # an object popped from the queue must not flow into the Object directly
         direct_pop = any('VecDeque::pop' in c for c in calls)
         ctx.ob('R04.2', 'handed-out object originates only from the recycler / creator results', not extra and not direct_pop and bool(calls & allowed),
                ctx.where(b, s.line), 'origins: %s' % sorted(calls), construct='object-origin', sites=sorted(calls))
     for b in (rec, cre):
+        if b.path == root.path:
+            continue
         ban = prog.an(b)
         for bb, cls, det in ban.ret_assignments():
             if cls != 'ok':
@@ -293,7 +297,7 @@ def run(ctx):
     # PostCreateHook carries the hook's error
     for v, a, line in cons.get(cre.path, []):
         pass
-    at = prog.body('deadpool::managed::apply_timeout::{closure#0}')
+    at = r.TIMEOUT_WRAPPER
     if at is not None:
         ctx.saw(at)
         got = variants(at.path)
@@ -302,9 +306,12 @@ def run(ctx):
                construct='errors:apply_timeout', sites=got)
     acquire_error_mapping(ctx, r, cons, 'R04.5')
     # TimeoutType at the wait site
-    ats = [blk for blk in root.blocks if blk.term.kind == 'call' and blk.term.rcallee and strip_generics(blk.term.rcallee) == 'deadpool::managed::apply_timeout']
+    ats = [blk for blk in root.blocks if blk.term.kind == 'call' and blk.term.rcallee and strip_generics(blk.term.rcallee) == r.TIMEOUT_WRAPPER_FN]
     for a in ats:
         srcs = [sources(an, x) for x in a.term.args]
+        wraps_acquire = any(s[0] == 'closure' and s[1] in prog.bodies and calls_named(prog.bodies[s[1]], ['tokio::sync::Semaphore::acquire']) for s in srcs[3])
+        if not wraps_acquire:
+            continue
         tts = sorted(s[1].split('::')[-1] for s in srcs[1] if s[0] == 'agg')
         durs = sorted(s[1] for s in srcs[2] if s[0] in ('field', 'upvar'))
         ok = tts == ['Wait'] and any(d.endswith('.wait') for d in durs)
